@@ -61,6 +61,12 @@ func genCPM(r *rng, out *bufio.Writer, n int, long int) {
 		v.Intr = nil
 		v.N = 1
 		v.W[11], v.W[12] = 0xf800, 0x0100
+		if r.chance(50) {
+			// the caller's stack elsewhere: top of memory, right below the stub, in the unused gap between the stub (FE06..FE1C) and the
+			// stop code (FF03), right after the stop code, anywhere in the upper half — never such that the two bytes CALL 5 pushes (SP-2, SP-1)
+			// land on a BIOS byte: a program that overwrites the BIOS is outside the property
+			v.W[11] = []uint16{0x0000, 0xfe06, 0xfe04, uint16(0xfe1f + r.n(0xe5)), uint16(0xfe1f + r.n(0xe5)), 0xff03, 0xff06, uint16(0x8000 + r.n(0x7000))}[r.n(8)]
+		}
 		var prog []uint8
 		var over []Override
 		next := uint16(0x2000 + r.n(0x100))
